@@ -60,6 +60,29 @@ NEEDS = {
     "C17-D": "an earlier run that stops while slot 0 is occupied, clear, then a program that pops the empty stack before pushing anything",
     "C18-C": "a host function re-entering a script function when the call stack has 0 or 1 free slots, a callee of arity >= 1, a host that carries on after the error",
     "C18-D": "a function, closure or native function value passed to a bool parameter of a host function",
+    # third round (ids E / F); the agents were told which ideas already existed
+    "C02-E": "a closure over local X already garbage while X is in scope, a second closure capturing a neighbouring local for the first time, a collection exactly at that upvalue's header allocation",
+    "C02-F": "std.min / max / *_by_key on a non-empty table and a collection at exactly the growth of the two-bucket result row",
+    "C03-E": "a host function that calls run_function and does not propagate the error (retry), and a callback that fails by running out of budget",
+    "C03-F": "callbacks through sort / min / max with an exact instruction count at budget expiry, or a native function value as key function",
+    "C04-E": "a string literal, dotted property name or native function name of exactly 253 to 256 bytes",
+    "C04-F": "an entry removed while the run of occupied buckets after it continues around the array end and contains a wrapped entry (12 to 40 integer keys in arithmetic progression, then pops)",
+    "C05-E": "one request that lifts the charge above the collection threshold and the limit at once while enough of what is allocated is garbage",
+    "C05-F": "the program or the host creates empty strings",
+    "C07-E": "integer keys set out of order so that the last inserted key is len-1 while the key len exists, then an append",
+    "C07-F": "a table with a nil key iterated with the ForEach card",
+    "C09-E": "the program defines a top-level function named like a helper of the standard library (row_to_value)",
+    "C09-F": "both a positive and a negative zero among the compared values",
+    "C12-E": "a map whose key and value types both have no drop glue, clear() on a non-empty map, then len / is_empty or use up to the next growth",
+    "C12-F": "exactly reserve(0) while the map is empty, followed by any other operation",
+    "C13-E": "an allocation failure exactly at a growth step, followed by len() or further inserts",
+    "C13-F": "a new handle added through entry().or_insert_with() exactly on a growth step whose slot differs after doubling",
+    "C15-E": "main is not the first function of the root module",
+    "C15-F": "an error at recursion depth 2 or more through one and the same call card",
+    "C17-E": "a run ending in OutOfMemory with garbage present at the failing allocation, then clear, then a program whose peak is near the limit",
+    "C17-F": "a comparison of two distinct equal-length tables with different content, then a later run in which the allocator hands back the same two addresses",
+    "C18-E": "a host function calling a native function value via run_function with an argument kind a typed parameter rejects, the host carrying on after the error",
+    "C18-F": "a script callee invoked via run_function that fails at call depth 2 or more inside the callee, the host surviving the error",
 }
 
 confirm = {}
